@@ -28,6 +28,12 @@ class Ctx:
         self.mask_len = z3.BitVec("mask_len", 64)
         self.mask_arr = z3.Array("mask", z3.BitVecSort(64), z3.BitVecSort(8))
         self.parse_ok = z3.BitVec("parse_ret", 32)
+        # symbolic ADDRESSES of the three buffers.  mask/data: any address (no alignment assumption - the statement
+        # says "any memory alignment"); out: 8-aligned (CPython: PyObject_Malloc alignment >= 8 and
+        # offsetof(PyBytesObject, ob_sval) == 32).  All: non-null page, no wrap-around.
+        self.base_mask = z3.BitVec("addr_mask", 64)
+        self.base_data = z3.BitVec("addr_data", 64)
+        self.base_out = z3.BitVec("addr_out", 64)
         if data_len is None:
             self.data_len = z3.BitVec("data_len", 64)
             self.data_arr = z3.Array("data", z3.BitVecSort(64), z3.BitVecSort(8))
@@ -55,13 +61,18 @@ class Ctx:
             ok = st
             ok.pc.append(ctx.parse_ok != 0)
             ok.pc.append(ctx.mask_len >= 0)
-            mid = ip.new_alloc(ok, llk.Buf("mask", ctx.mask_len, array=ctx.mask_arr, readonly=True), "mask")
+            for b in (ctx.base_mask, ctx.base_data):
+                ok.pc.append(z3.And(z3.UGE(b, 4096), z3.ULE(b, 1 << 62)))
+            mid = ip.new_alloc(ok, llk.Buf("mask", ctx.mask_len, array=ctx.mask_arr, readonly=True,
+                                           base=ctx.base_mask), "mask")
             if ctx.data is None:
                 ok.pc.append(ctx.data_len >= 0)
-                did = ip.new_alloc(ok, llk.Buf("data", ctx.data_len, array=ctx.data_arr, readonly=True), "data")
+                did = ip.new_alloc(ok, llk.Buf("data", ctx.data_len, array=ctx.data_arr, readonly=True,
+                                               base=ctx.base_data), "data")
                 dl = ctx.data_len
             else:
-                did = ip.new_alloc(ok, llk.Buf("data", ctx.data_len, bytes_=list(ctx.data), readonly=True), "data")
+                did = ip.new_alloc(ok, llk.Buf("data", ctx.data_len, bytes_=list(ctx.data), readonly=True,
+                                               base=ctx.base_data), "data")
                 dl = z3.BitVecVal(ctx.data_len, 64)
             ok.mem[args[2].alloc].val = llk.Ptr(mid)
             ok.mem[args[3].alloc].val = ctx.mask_len
@@ -93,11 +104,13 @@ class Ctx:
             nomem.exc = ("@PyExc_MemoryError", None)
             outs.append((nomem, llk.NULL))
             st.pc.append(z3.Not(z3.Bool("alloc_fails")))
+            st.pc.append(z3.And(z3.UGE(ctx.base_out, 4096), z3.ULE(ctx.base_out, 1 << 62), ctx.base_out & 7 == 0))
             if z3.is_bv_value(n):
                 ln = n.as_long()
-                buf = llk.Buf("out", ln, bytes_=[z3.BitVec("uninit%d" % i, 8) for i in range(ln)])
+                buf = llk.Buf("out", ln, bytes_=[z3.BitVec("uninit%d" % i, 8) for i in range(ln)], base=ctx.base_out)
             else:
-                buf = llk.Buf("out", n, array=z3.Array("uninit", z3.BitVecSort(64), z3.BitVecSort(8)))
+                buf = llk.Buf("out", n, array=z3.Array("uninit", z3.BitVecSort(64), z3.BitVecSort(8)),
+                              base=ctx.base_out)
             bid = ip.new_alloc(st, buf, "out")
             oid = ip.new_alloc(st, llk.Opaque("bytes-object", data=bid), "bytesobj")
             ctx.out_id = bid
@@ -156,7 +169,9 @@ def model_inputs(ctx, m, L):
     mask = bytes(m.eval(z3.Select(ctx.mask_arr, z3.BitVecVal(i, 64)), model_completion=True).as_long()
                  for i in range(mlen))
     data = bytes(m.eval(ctx.data[i], model_completion=True).as_long() for i in range(L))
-    return dict(mask=mask, data=data, mask_len_in_model=ml)
+    doff = m.eval(ctx.base_data, model_completion=True).as_long() % 8
+    moff = m.eval(ctx.base_mask, model_completion=True).as_long() % 8
+    return dict(mask=mask, data=data, mask_len_in_model=ml, data_addr_mod8=doff, mask_addr_mod8=moff)
 
 
 def check_length(fn, L, chk, violations, replay_fn, stats):
@@ -215,6 +230,21 @@ def check_length(fn, L, chk, violations, replay_fn, stats):
         if r != "unsat" and r != "unknown":
             violations.append(("wrong-bytes", "data_len=%d: output differs from data[i]^mask[i%%4]" % L,
                                model_inputs(ctx, r[1], L)))
+    # every address alignment class of the payload (addr % 8 = 0..7) must be inhabited by a success path that was
+    # checked above (vacuity guard for the "any alignment" half of the statement)
+    classes = set()
+    q0, s0 = ip.queries, ip.solver_s
+    for lf in leaves:
+        if isinstance(lf.ret, llk.Ptr) and not lf.ret.is_null():
+            for k in range(8):
+                if k not in classes and ip.feasible(list(lf.pc) + [ctx.base_data & 7 == k]):
+                    classes.add(k)
+    stats["queries"] += ip.queries - q0
+    stats["solver_s"] += ip.solver_s - s0
+    stats["classes"] = min(stats.get("classes", 8), len(classes))
+    if "ok" in kinds and len(classes) != 8:
+        violations.append(("alignment-class-missing", "data_len=%d: no successful path for payload address %% 8 in %r"
+                           % (L, sorted(set(range(8)) - classes)), {}))
     # completeness of the path split: a 4-byte mask with successful parse/allocation must reach 'ok'
     if "ok" not in kinds:
         violations.append(("no-success-path", "data_len=%d: no path returns a result" % L, {}))
@@ -275,23 +305,30 @@ def run(tier, seed):
                      "32-bit configuration is not in the IR)",
                      "data_len 0..%d each as one query with all data bytes, the mask bytes and mask_len symbolic"
                      % maxlen,
-                     "alignment: every multi-byte access is a little-endian composition of byte accesses in the "
-                     "model, so the result cannot depend on the buffer address; strict-aliasing / unaligned-access "
-                     "legality of the C casts is outside the claim",
+                     "alignment: mask and payload live at SYMBOLIC 64-bit addresses without any alignment assumption "
+                     "(output buffer: 8-aligned, as CPython's allocator and PyBytesObject layout guarantee); ptrtoint "
+                     "results are terms over these addresses and branches on them fork paths, so every obligation holds "
+                     "for every payload address %% 8 = 0..7 (each class is checked to be inhabited by a success path: "
+                     "min classes per length = %d); multi-byte accesses are little-endian byte compositions; "
+                     "strict-aliasing / unaligned-access legality of the C casts is outside the claim" % stats.get("classes", 0),
                      "replay (not the verdict): %s" % rep.get("summary")] +
                     ["inconclusive: " + x for x in chk.inconclusive],
-        violations=out_viol, ir_paths=stats["paths"], opcodes=sorted(stats["opcodes"]),
+        violations=out_viol, ir_paths=stats["paths"], alignment_classes_per_length=stats.get("classes"), opcodes=sorted(stats["opcodes"]),
         ir_lines=len(fn.text.splitlines()), replay=rep.get("summary"),
         wall_total=round(time.time() - t_start, 1))
 
 
 def replay(violations, seed):
-    """Rebuild the extension from the CURRENT speedups.c (the .so in the repo may be stale) and compare it with
-    the spec / the Python reference on boundary lengths x 8 alignment offsets, plus any solver models."""
+    """Rebuild from the CURRENT speedups.c (the .so in the repo may be stale): (a) the extension itself, called
+    with bytes objects; (b) a driver (engines/llk.py DRIVER_C) in the same translation unit that hands the real
+    websocket_mask read-only buffers placed at ANY address offset - bytes objects cannot be misaligned.  Both are
+    compared with the spec / the Python reference on boundary lengths x 8 payload offsets x mask offsets, and the
+    solver's models are replayed at the model's address alignment.  Replay only, never the verdict."""
     import random
     out = dict(violation_replays={}, mismatch=None, summary=None)
     try:
         mod, cmd = llk.build_extension(c_path())
+        drv, dcmd = llk.build_driver(c_path())
     except llk.Unsupported as e:
         out["summary"] = "extension could not be rebuilt: %s" % e
         return out
@@ -305,39 +342,48 @@ def replay(violations, seed):
             out["violation_replays"][id(inp)] = dict(reproduced=True, detail="structural (no input needed)")
             continue
         mask, data = inp["mask"], inp["data"]
+        moff, doff = inp.get("mask_addr_mod8", 0), inp.get("data_addr_mod8", 0)
         try:
-            got = mod.websocket_mask(mask, data)
+            got = drv.call(mask, data, moff, doff)
             res = "returned %r" % (got,)
             bad = len(mask) != 4 or got != spec(mask, data)
         except ValueError as e:
             res = "raised ValueError(%s)" % e
             bad = len(mask) == 4
-        out["violation_replays"][id(inp)] = dict(reproduced=bool(bad) or kind == "oob", detail="rebuilt extension " + res)
+        out["violation_replays"][id(inp)] = dict(
+            reproduced=bool(bad) or kind == "oob",
+            detail="rebuilt websocket_mask, payload at address %% 8 = %d, mask at %% 8 = %d, %s" % (doff, moff, res))
     rnd = random.Random(seed)
     n = 0
     lens = list(range(0, 41)) + [63, 64, 65, 127, 128, 129, 255, 256, 257, 4095, 4096]
     for L in lens:
         for off in range(8):
-            for mask in (bytes(rnd.randrange(256) for _ in range(4)), b"\x00\xff\x80\x01"):
-                base = bytes(rnd.randrange(256) for _ in range(L + off))
-                # ("s#" refuses memoryviews, so the C function only ever sees the payload of a bytes object,
-                #  which CPython places at a fixed offset of a 16-byte aligned block: the address alignment
-                #  cannot be varied through the public API; `off` only varies the content)
-                view = base[off:]
-                got = mod.websocket_mask(mask, view)
+            for mask, moff in ((bytes(rnd.randrange(256) for _ in range(4)), 0), (b"\x00\xff\x80\x01", 3)):
+                data = bytes(rnd.randrange(256) for _ in range(L))
+                want = spec(mask, data)
+                got = drv.call(mask, data, moff, off)
                 n += 1
-                if got != spec(mask, bytes(view)) or got != ref(mask, bytes(view)):
-                    out["mismatch"] = dict(mask=repr(mask), data=repr(bytes(view)), offset=off, got=repr(got))
+                if off == 0:
+                    got2 = mod.websocket_mask(mask, data)      # plain bytes objects through the extension module
+                    n += 1
+                else:
+                    got2 = want
+                if got != want or got2 != want or want != ref(mask, data):
+                    out["mismatch"] = dict(mask=repr(mask), data=repr(data), data_addr_mod8=off, mask_addr_mod8=moff,
+                                           got=repr(got if got != want else got2))
                     out["summary"] = "mismatch after %d cases" % n
                     return out
     for bad in (b"", b"abc", b"abcde"):
-        try:
-            mod.websocket_mask(bad, b"xyz")
-            out["mismatch"] = dict(mask=repr(bad), note="accepted")
-        except ValueError:
-            pass
-        n += 1
-    out["summary"] = "extension rebuilt with `%s`; %d concrete cases (lengths %s, offsets 0..7) equal spec and reference" % (
-        cmd.replace(llk._TMP[-1] if llk._TMP else "", "<tmp>"), n, "0..40,63..65,127..129,255..257,4095,4096") + \
-        "; buffer alignment cannot be varied from Python (s# accepts only bytes/str objects)"
+        for f in (lambda: mod.websocket_mask(bad, b"xyz"), lambda: drv.call(bad, b"xyz", 1, 1)):
+            try:
+                f()
+                out["mismatch"] = dict(mask=repr(bad), note="accepted")
+            except ValueError:
+                pass
+            n += 1
+    tmp = llk._TMP[-1] if llk._TMP else ""
+    out["summary"] = ("rebuilt with `%s` and driver `%s`; %d concrete cases (lengths %s; payload address %% 8 = 0..7, "
+                      "mask address %% 8 in {0,3} through the driver's read-only buffer type, plus bytes objects through "
+                      "the module) equal spec and reference") % (
+        cmd.replace(tmp, "<tmp>"), dcmd.replace(tmp, "<tmp>"), n, "0..40,63..65,127..129,255..257,4095,4096")
     return out
